@@ -355,6 +355,7 @@ def _run_path(interp, reg, c, func, rep):
     kw = {n: args[n] for n in names[code.co_argcount:] if n in args}
     outcome = None
     info = frontend.funcinfo_of(func)
+    mlists_before = _mutable_lists_of(args)
     yseq = None
     if info.is_generator:
         from .gens import YSeq
@@ -372,6 +373,13 @@ def _run_path(interp, reg, c, func, rep):
     key = 'return' if outcome[0] == 'return' else type(outcome[1]).__name__
     rep.outcomes[key] = rep.outcomes.get(key, 0) + 1
     fname = c.qname
+    # frame: a symbolic mutable list reachable from the parameters that the function changed must be declared in
+    # `modifies` (call sites keep everything else they know about such a list)
+    mlists_after = _mutable_lists_of(args)
+    for path, (m, version) in mlists_before.items():
+        now = mlists_after.get(path)
+        if (now is None or now[0] is not m or now[1] != version) and path not in c.modifies:
+            st.oblige('%s : frame[%s is not modified]' % (fname, path), False, {'kind': 'frame'})
     if outcome[0] == 'return':
         env2 = _clause_env(args, ghosts, {'result': outcome[1], 'old': old, 'trace': st.trace, 'ghost': st.ghost})
         # a declared deterministic `when` exception must have been raised
@@ -423,6 +431,29 @@ def _run_path(interp, reg, c, func, rep):
     if c.raises_only is not None and outcome[0] == 'return':
         st.oblige('%s : raises_only(%s)' % (fname, ', '.join(_exc_name(e) for e in list(c.raises) + list(c.may_raise)
                                                             + list(c.raises_only))), True, {'kind': 'raises-only'})
+
+
+def _mutable_lists_of(args):
+    """{access path: (MList, version)} of the symbolic mutable lists reachable from the arguments through the
+    fields of repository objects"""
+    from .mlist import MList
+    from .interp import _is_repo_class
+    out = {}
+
+    def walk(v, path, depth):
+        if isinstance(v, MList):
+            out[path] = (v, v.version)
+            return
+        if depth <= 0 or isinstance(v, (Sym, str, int, float, type(None), list, tuple, dict)):
+            return
+        d = getattr(v, '__dict__', None)
+        if isinstance(d, dict) and _is_repo_class(type(v)):
+            for k, x in d.items():
+                walk(x, '%s.%s' % (path, k), depth - 1)
+
+    for name, v in args.items():
+        walk(v, name, 3)
+    return out
 
 
 def _shape_of_ty(ty):
